@@ -1,5 +1,376 @@
-/- Driver for C20 (stub until the property's model is written). -/
+/- Driver for C20.  Reads the lines of harness/c20_lib.c (A S Q O I), c20_dns.c (D), c20_parse.c (T),
+   c20_prog.c (P) and the sanitizer death lines (X).
+   DISAGREE = the Lean model (Nq.Stralloc / Nq.Substdio / Nq.Dns / Nq.Users.cdbSeek) predicts something else than the
+   real code did.  ORACLE = the bounds / stream predicate the theorems of Nq/Props/C20.lean state, evaluated on the
+   IMPLEMENTATION's output, fails — or a sanitizer aborted the run, or a program ended outside its documented exits. -/
 import Drv.Util
-open Drv
-def handle (st : Stats) (_line : String) : IO Stats := return { st with cases := st.cases + 1 }
+import Nq.Stralloc
+import Nq.Substdio
+import Nq.Dns
+import Nq.Users
+import Nq.Spawn
+
+open Nq Drv
+
+def U32 : Nat := 4294967296
+
+def natOf (s : String) : Nat := s.toNat?.getD 0
+def intOf (s : String) : Int := s.toInt?.getD 0
+def optNat (s : String) : Option Nat := if s == "-" then none else s.toNat?
+def showOpt : Option Nat → String | none => "-" | some n => toString n
+def commaList (s : String) : List String := if s == "-" then [] else s.splitOn ","
+def script (s : String) : List Nat := (commaList s).map natOf
+
+def note (st : Stats) (tag : String) (dis : Bool) (msg : String) : IO Stats := do
+  IO.println s!"{tag} {msg}"
+  return if dis then { st with disagree := st.disagree + 1 } else { st with oracle := st.oracle + 1 }
+
+/-! ### A / S / Q : gen_alloc, stralloc, quote -/
+open Nq.Stralloc in
+def modelA (sz base limit : Nat) (x : GA) (op n : Nat) : Out :=
+  let grant := fun k => decide (k ≤ limit)
+  match op with
+  | 0 => ready sz base grant x n
+  | 1 => readyplus sz base grant x n
+  | 2 => append sz base grant x
+  | 3 => catb grant x n
+  | _ => copyb grant x n
+
+def handleA (st : Stats) (f : List String) (inp : String) : IO Stats := do
+  match f with
+  | [szS, baseS, limS, nnS, lenS, aS, opS, nS, ":", retS, nn2S, len2S, a2S, reqS] =>
+    let sz := natOf szS; let base := natOf baseS; let lim := natOf limS; let nn := nnS == "1"
+    let len := natOf lenS; let a := natOf aS; let op := natOf opS; let n := natOf nS
+    let ret := retS == "1"; let nn2 := nn2S == "1"; let len2 := natOf len2S; let a2 := natOf a2S; let req := optNat reqS
+    let mut st := st.bump ("A.op" ++ opS ++ (if ret then ".ok" else ".fail"))
+    let o := modelA sz base lim ⟨nn, len, a, a * sz⟩ op n
+    if !(o.ret == ret && o.x.nonnull == nn2 && o.x.len == len2 && o.x.a == a2 && o.req == req) then
+      st ← note st "DISAGREE" true s!"kind=alloc in={inp} impl={retS},{nn2S},{len2S},{a2S},{reqS} model={if o.ret then 1 else 0},{if o.x.nonnull then 1 else 0},{o.x.len},{o.x.a},{showOpt o.req}"
+    -- property oracle on the implementation's numbers (initial state well-formed)
+    let wf0 := (!nn || len ≤ a) && a * sz < U32
+    let len0 := if nn then len else 0
+    let okSucc := nn2 && len2 ≤ a2 && a2 * sz < U32 && (match req with | some r => r == a2 * sz | none => true) &&
+      (match op with
+       | 0 => n ≤ a2
+       | 1 => (if nn then len + n ≤ a2 else n ≤ a2)
+       | 2 => len2 == len0 + 1
+       | 3 => len2 == len0 + n && len2 < a2
+       | _ => len2 == n && n < a2)
+    let okFail := a2 == a && nn2 == nn
+    let need := match op with | 0 => n | 1 => len0 + n | 2 => len0 + 1 | 3 => len0 + n + 1 | _ => n + 1
+    let okOvf := !(nn && need ≥ U32 && ret)          -- a request that does not fit 32 bits is never granted
+    if wf0 && !((if ret then okSucc else okFail) && okOvf) then
+      st ← note st "ORACLE" false s!"kind=alloc in={inp} impl={retS},{nn2S},{len2S},{a2S},{reqS} bounds-predicate-fails"
+    return st
+  | _ => note st "DISAGREE" true s!"kind=alloc unparsable in={inp}"
+
+open Nq.Stralloc in
+def parseSOp (s : String) : Option (Char × Nat) :=
+  match s.toList with
+  | c :: r => some (c, (String.ofList r).toNat?.getD 0)
+  | [] => none
+
+open Nq.Stralloc in
+def handleS (st : Stats) (f : List String) (inp : String) : IO Stats := do
+  match f with
+  | [limS, opsS, ":", resS, okS] =>
+    let lim := natOf limS
+    let grant := fun k => decide (k ≤ lim)
+    let ops := (opsS.splitOn ".").filterMap parseSOp
+    let res := resS.splitOn ";"
+    let mut st := st.bump "S.seq"
+    let mut x : GA := {}
+    let mut outs : List String := []
+    for (c, n) in ops do
+      let o : Out := match c with
+        | 'r' => ready 1 30 grant x n
+        | 'p' => readyplus 1 30 grant x n
+        | 'a' => append 1 30 grant x
+        | 'c' => catb grant x n
+        | 'y' => copyb grant x n
+        | _ => if n ≤ x.a then ⟨true, { x with len := n }, none, [], false⟩ else ⟨true, x, none, [], false⟩
+      x := o.x
+      outs := outs ++ [s!"{if o.ret then 1 else 0},{o.x.len},{o.x.a},{showOpt o.req}"]
+    if outs != res then
+      st ← note st "DISAGREE" true s!"kind=seq in={inp} impl={resS} model={";".intercalate outs}"
+    -- oracle: len ≤ a after every step of the real run, content intact
+    let bad := res.any (fun r => match r.splitOn "," with
+      | [_, l, a, _] => natOf l > natOf a
+      | _ => true)
+    if bad || okS != "1" then
+      st ← note st "ORACLE" false s!"kind=seq in={inp} impl={resS} content={okS} len>a-or-content-corrupted"
+    return st
+  | _ => note st "DISAGREE" true s!"kind=seq unparsable in={inp}"
+
+open Nq.Stralloc in
+def handleQ (st : Stats) (f : List String) (inp : String) : IO Stats := do
+  match f with
+  | [limS, nnS, aS, ilS, escS, ":", retS, len2S, a2S, reqS, okS] =>
+    let lim := natOf limS; let nn := nnS == "1"; let a := natOf aS; let il := natOf ilS; let esc := natOf escS
+    let ret := retS == "1"; let len2 := natOf len2S; let a2 := natOf a2S; let req := optNat reqS
+    let mut st := st.bump ("Q" ++ (if ret then ".ok" else ".fail"))
+    let o := quoteDoit (fun k => decide (k ≤ lim)) ⟨nn, 0, if nn then a else 0, if nn then a else 0⟩ il esc
+    if !(o.ret == ret && o.x.len == len2 && o.x.a == a2 && o.req == req) then
+      st ← note st "DISAGREE" true s!"kind=quote in={inp} impl={retS},{len2S},{a2S},{reqS} model={if o.ret then 1 else 0},{o.x.len},{o.x.a},{showOpt o.req}"
+    let okv := if ret then len2 == il + esc + 2 && len2 ≤ a2 && il + esc + 2 ≤ INT_MAX && okS == "1" else true
+    if !okv then
+      st ← note st "ORACLE" false s!"kind=quote in={inp} impl={retS},{len2S},{a2S},{reqS} bounds-predicate-fails"
+    return st
+  | _ => note st "DISAGREE" true s!"kind=quote unparsable in={inp}"
+
+/-! ### O / I : substdio -/
+open Nq.Substdio in
+def parseOOp (s : String) : Option OOp :=
+  match s.toList with
+  | 'f' :: _ => some .flush
+  | 'p' :: r => (unhex (String.ofList r)).map .put
+  | 'b' :: r => (unhex (String.ofList r)).map .bput
+  | 'P' :: r => (unhex (String.ofList r)).map .putflush
+  | _ => none
+
+open Nq.Substdio in
+def handleO (st : Stats) (f : List String) (inp : String) : IO Stats := do
+  match f with
+  | [nS, wsS, opsS, ":", resS, takenS, bufS] =>
+    let n := natOf nS
+    let ops := (opsS.splitOn ".").filterMap parseOOp
+    let mut st := st.bump "O.seq"
+    let mut s : OSt := { n := n, ws := script wsS }
+    let mut outs : List String := []
+    let mut allok := true
+    let mut total : Bytes := []
+    for o in ops do
+      let r := oapply s o
+      s := r.1
+      allok := allok && r.2
+      total := total ++ (match o with | .put d => d | .bput d => d | .putflush d => d | .flush => [])
+      outs := outs ++ [s!"{if r.2 then "0" else "-1"},{s.p}"]
+    let res := resS.splitOn ";"
+    if outs != res || hex s.out != takenS || hex s.buf != bufS then
+      st ← note st "DISAGREE" true s!"kind=sout in={inp} impl={resS},{takenS},{bufS} model={";".intercalate outs},{hex s.out},{hex s.buf}"
+    -- oracle on the implementation: 0 ≤ p ≤ n after every call; if nothing failed, taken ++ buffered = everything put
+    let pbad := res.any (fun r => match r.splitOn "," with
+      | [_, p] => (match p.toInt? with | some v => v < 0 || v > Int.ofNat n | none => true)
+      | _ => true)
+    let implOk := res.all (fun r => r.startsWith "0,")
+    let stream := match unhex takenS, unhex bufS with
+      | some t, some b => !implOk || t ++ b == total
+      | _, _ => false
+    if pbad || !stream then
+      st ← note st "ORACLE" false s!"kind=sout in={inp} impl={resS},{takenS},{bufS} p-out-of-range-or-stream-law-fails"
+    return st
+  | _ => note st "DISAGREE" true s!"kind=sout unparsable in={inp}"
+
+open Nq.Substdio in
+def handleI (st : Stats) (f : List String) (inp : String) : IO Stats := do
+  match f with
+  | [sizeS, rsS, srcS, opsS, ":", resS] =>
+    let size := natOf sizeS
+    match unhex srcS with
+    | none => note st "DISAGREE" true s!"kind=sin unparsable in={inp}"
+    | some src =>
+    let mut st := st.bump "I.seq"
+    let mut s : ISt := { size := size, n := size, src := src, rs := script rsS }
+    let mut outs : List String := []
+    for o in (opsS.splitOn ".").filterMap parseSOp do
+      match o with
+      | ('g', len) =>
+        let r := Substdio.get s len
+        s := r.1
+        outs := outs ++ [match r.2 with
+          | .err => "-1,-" | .eof => "0,-"
+          | .got b => s!"{b.length},{hex b}"]
+      | ('f', _) =>
+        let r := feed s
+        s := r.1
+        outs := outs ++ [match r.2 with
+          | .err => s!"-1,{s.p},{s.n}" | .eof => s!"0,{s.p},{s.n}"
+          | .got b => s!"{b.length},{s.p},{s.n}"]
+      | (_, len) =>
+        let k := min len s.p
+        outs := outs ++ [s!"{k},{hex (s.data.take k)}"]
+        s := seek s k
+    let res := resS.splitOn ";"
+    if outs != res then
+      st ← note st "DISAGREE" true s!"kind=sin in={inp} impl={resS} model={";".intercalate outs}"
+    -- oracle on the implementation: the bytes handed out, in order, are a prefix of the source; no get returns more
+    -- than it was asked for; after every feed p + n = size
+    let opsL := (opsS.splitOn ".").filterMap parseSOp
+    let mut got : Bytes := []
+    let mut bad := res.length != opsL.length
+    for (o, r) in opsL.zip res do
+      match o, r.splitOn "," with
+      | ('g', len), [cnt, hx] =>
+        let c := intOf cnt
+        if c > Int.ofNat len then bad := true
+        if c > 0 then
+          match unhex hx with
+          | some b => if b.length != c.toNat then bad := true else got := got ++ b
+          | none => bad := true
+      | ('f', _), [_, p, n] => if natOf p + natOf n != size then bad := true
+      | ('s', _), [_, hx] => match unhex hx with | some b => got := got ++ b | none => bad := true
+      | _, _ => bad := true
+    if bad || got != src.take got.length then
+      st ← note st "ORACLE" false s!"kind=sin in={inp} impl={resS} bytes-out-of-order-or-count-exceeds-request"
+    return st
+  | _ => note st "DISAGREE" true s!"kind=sin unparsable in={inp}"
+
+/-! ### D : dns.c -/
+open Nq.Dns in
+def renderStep (s : Step) : String :=
+  let (r, d) := match s.r with
+    | .soft => ("-1", "-") | .done => ("2", "-") | .skip => ("0", "-") | .name => ("1", "-")
+    | .ip a b c d => ("1", hex [a, b, c, d])
+    | .mx p => ("1", toString p)
+  s!"{r},{s.st.pos},{s.st.num},{d}"
+
+open Nq.Dns in
+def handleD (st : Stats) (f : List String) (inp : String) : IO Stats := do
+  match f with
+  | [kindS, respS, ":", rcS, stepsS, dnS, pubS] =>
+    match unhex respS with
+    | none => note st "DISAGREE" true s!"kind=dns unparsable in={inp}"
+    | some resp =>
+    let mut st := st.bump ("D." ++ kindS)
+    let log : List (Nat × Int) := (commaList dnS).filterMap (fun e => match e.splitOn ":" with
+      | [p, r] => some (natOf p, intOf r) | _ => none)
+    let dn : Nat → Option Nat := fun p => match log.find? (fun e => e.1 == p) with
+      | some (_, r) => if r < 0 then none else some r.toNat
+      | none => none
+    let (k, want) : Kind × Nat := if kindS == "i" then (.ip, 1) else if kindS == "m" then (.mx, 15) else (.name, 12)
+    let pubrc := intOf ((pubS.splitOn ",").headD "0")
+    let pubOk := pubrc == 0 || pubrc == 1 || pubrc == -1 || pubrc == -2 || pubrc == -3
+    if resp.length < 12 then
+      -- no response / resolver error: nothing to walk; the documented results are DNS_HARD / DNS_SOFT
+      if !(rcS.startsWith "-") || !pubOk then
+        st ← note st "ORACLE" false s!"kind=dns in={inp} impl={rcS} {pubS} no-response-not-reported-as-error"
+      return st
+    let (q, s0) := resolve resp dn
+    let mrc := if q.ok then s!"0,{s0.pos},{s0.num}" else "-1,0,0"
+    let steps := if q.ok then walk k true resp dn want (s0.num + 1) s0 else []
+    let msteps := if q.ok then ";".intercalate (steps.map renderStep) else "-"
+    let mdns := q.dns ++ (steps.map (·.dns)).flatten
+    if mrc != rcS || msteps != stepsS || mdns != log.map (·.1) then
+      st ← note st "DISAGREE" true s!"kind=dns in={inp} impl={rcS} {stepsS} dn={dnS} model={mrc} {msteps} dn={",".intercalate (mdns.map toString)}"
+    if steps.any (fun s => match s.r with | .ip .. => true | .mx _ => true | .name => true | _ => false) then st := st.bump "D.found"
+    -- oracle on the implementation's trace: dn_expand honoured its contract, responsepos never passed responseend
+    let len := resp.length
+    let dnBad := log.any (fun e => e.2 ≥ 0 && e.1 + e.2.toNat > len) || log.any (fun e => e.1 > len)
+    let posBad := (match rcS.splitOn "," with | [rc, p, _] => rc == "0" && natOf p > len | _ => true) ||
+      (if stepsS == "-" then false else (stepsS.splitOn ";").any (fun s => match s.splitOn "," with
+        | [_, p, _, _] => natOf p > len | _ => true))
+    if dnBad || posBad || !pubOk then
+      st ← note st "ORACLE" false s!"kind=dns in={inp} impl={rcS} {stepsS} dn={dnS} pub={pubS} position-beyond-response-or-undocumented-result"
+    return st
+  | _ => note st "DISAGREE" true s!"kind=dns unparsable in={inp}"
+
+/-! ### T : parsers (c20_parse.c) -/
+def handleT (st : Stats) (f : List String) (inp : String) : IO Stats := do
+  match f with
+  | kind :: rest =>
+    let mut st := st.bump ("T." ++ kind)
+    if rest.getLast? != some "inv=1" then
+      st ← note st "ORACLE" false s!"kind=parse.{kind} in={inp} structural-invariant-fails"
+    if kind == "cdb" then
+      match rest with
+      | [fileS, keyS, rS, dlenS, dataS, _] =>
+        match unhex fileS, unhex keyS with
+        | some file, some key =>
+          let m : String := match Nq.Users.cdbSeek file key with
+            | .found dpos dlen =>
+                if dlen > 1048576 then s!"-3 {dlen} -"
+                else
+                  let d := (file.drop dpos).take dlen
+                  if d.length = dlen then s!"1 {dlen} {hex d}" else s!"-2 {dlen} -"
+            | .notFound => "0 0 -"
+            | .err => "-1 0 -"
+          if m != s!"{rS} {dlenS} {dataS}" then
+            st ← note st "DISAGREE" true s!"kind=parse.cdb in={inp} impl={rS},{dlenS},{dataS} model={m}"
+          -- oracle: data handed out is a slice of the file (never bytes from elsewhere), lengths agree
+          if rS == "1" then
+            match unhex dataS with
+            | some d =>
+              if d.length != natOf dlenS || !(List.range (file.length + 1)).any (fun i => (file.drop i).take d.length == d) then
+                st ← note st "ORACLE" false s!"kind=parse.cdb in={inp} data-not-from-file"
+            | none => st ← note st "ORACLE" false s!"kind=parse.cdb in={inp} data-unparsable"
+        | _, _ => st ← note st "DISAGREE" true s!"kind=parse.cdb unparsable in={inp}"
+      | _ => st ← note st "DISAGREE" true s!"kind=parse.cdb unparsable in={inp}"
+    return st
+  | _ => note st "DISAGREE" true s!"kind=parse unparsable in={inp}"
+
+/-! ### R : report() of qmail-rspawn / qmail-lspawn (c20_report.c) -/
+def handleR (st : Stats) (f : List String) (inp : String) : IO Stats := do
+  match f with
+  | [kS, wS, outS, ":", repS] =>
+    match unhex outS, unhex repS with
+    | some out, some rep =>
+      let mut st := st.bump ("R." ++ kS)
+      let k : Nq.Spawn.Kind := if kS == "l" then .l else .r
+      let m := Nq.Spawn.reportBody k (natOf wS) out
+      if m != rep then
+        st ← note st "DISAGREE" true s!"kind=report in={inp} impl={repS} model={hex m}"
+      -- oracle: a report is one status letter followed by bytes of the child's output, or one of the short fixed texts:
+      -- it can never be longer than the output + 1 (bytes from beyond the output would make it longer or foreign)
+      let body := rep.drop 1
+      let fromChild := body.all (fun c => out.contains c)
+      if !(rep.length ≤ 64 || (rep.length ≤ out.length + 1 && fromChild)) then
+        st ← note st "ORACLE" false s!"kind=report in={inp} impl={repS} report-contains-bytes-not-in-the-child-output"
+      return st
+    | _, _ => note st "DISAGREE" true s!"kind=report unparsable in={inp}"
+  | _ => note st "DISAGREE" true s!"kind=report unparsable in={inp}"
+
+/-! ### P : whole programs (c20_prog.c) -/
+def allowedExit (prog : String) (code : Int) : Bool :=
+  match prog with
+  | "smtpd" => code == 0 || code == 1
+  | "qmtpd" => code == 0 || code == 100 || code == 111
+  | "qmqpd" => code == 0 || code == 100 || code == 111
+  | "pop3d" => code == 0 || code == 1
+  | "popup" => code == 0 || code == 1 || code == 2 || code == 111
+  | "inject" => code == 0 || code == 100 || code == 111
+  | "local" => code == 0 || code == 100 || code == 111
+  | _ => false
+
+def handleP (st : Stats) (f : List String) (inp : String) : IO Stats := do
+  match f with
+  | [prog, variant, inh, exitS, sigS, sanS, _outlen, _outp, errmark] =>
+    let mut st := st.bump ("P." ++ prog)
+    st := st.bump ("P." ++ prog ++ ".exit" ++ exitS)
+    if sanS != "0" then
+      st ← note st "ORACLE" false s!"kind=prog.{prog} in=P|{prog}|{variant}|{inh} exit={exitS} sig={sigS} sanitizer-report={errmark}"
+    else if sigS == "9" && exitS == "-1" then
+      st ← note st "ORACLE" false s!"kind=prog.{prog} in=P|{prog}|{variant}|{inh} hang-after-end-of-input"
+    else if sigS != "0" then
+      st ← note st "ORACLE" false s!"kind=prog.{prog} in=P|{prog}|{variant}|{inh} killed-by-signal={sigS}"
+    else if !allowedExit prog (intOf exitS) then
+      st ← note st "ORACLE" false s!"kind=prog.{prog} in=P|{prog}|{variant}|{inh} undocumented-exit={exitS}"
+    return st
+  | _ => note st "DISAGREE" true s!"kind=prog unparsable in={inp.take 200}"
+
+def handle (st : Stats) (line : String) : IO Stats := do
+  let f := fields line
+  match f with
+  | [] => return st
+  | tag :: rest =>
+    let inp := ("|".intercalate (f.takeWhile (· != ":")))
+    let h := hash inp
+    let fresh := !st.seen.contains h
+    let mut st := { st with cases := st.cases + 1, seen := st.seen.insert h,
+                            nontrivial := st.nontrivial + (if fresh then 1 else 0) }
+    if fresh && st.samples < 8 && (st.cases % 997 == 3) && line.length < 400 then
+      IO.println s!"SAMPLE {line.trimAscii.toString}"
+      st := { st with samples := st.samples + 1 }
+    match tag with
+    | "A" => handleA st rest inp
+    | "S" => handleS st rest inp
+    | "Q" => handleQ st rest inp
+    | "O" => handleO st rest inp
+    | "I" => handleI st rest inp
+    | "D" => handleD st rest inp
+    | "T" => handleT st rest ("|".intercalate (f.take 6))
+    | "P" => handleP st rest inp
+    | "R" => handleR st rest inp
+    | "X" => note (st.bump "X") "ORACLE" false s!"kind=sanitizer-abort in={"|".intercalate (rest.dropLast)} the-run-was-killed-by-ASan/UBSan"
+    | _ => note st "DISAGREE" true s!"kind=unknown unparsable in={(line.take 200)}"
+
 def main : IO Unit := runDriver handle
